@@ -87,6 +87,23 @@ type xmlParser struct {
 	nsPos      int
 	attrs      []XmlAttribute
 	attrPos    int
+	hasPending bool
+	pendingTok xml.Token
+	pendingErr error
+}
+
+// Returns the token that was read ahead by the last Pull, or else reads the next one.
+func (x *xmlParser) nextToken() (xml.Token, error) {
+	if x.hasPending {
+		tok, err := x.pendingTok, x.pendingErr
+		x.hasPending = false
+		x.pendingTok = nil
+		x.pendingErr = nil
+
+		return tok, err
+	}
+
+	return x.xmlReader.Token()
 }
 
 func (x *xmlParser) Pull() (node.Node, bool, error) {
@@ -108,7 +125,7 @@ func (x *xmlParser) Pull() (node.Node, bool, error) {
 	x.attrPos = 0
 	x.namespaces = emptyXmlNamespaces
 	x.nsPos = 0
-	tok, err := x.xmlReader.Token()
+	tok, err := x.nextToken()
 
 	if err != nil {
 		return nil, false, err
@@ -123,8 +140,25 @@ func (x *xmlParser) Pull() (node.Node, bool, error) {
 			local: n.Name.Local,
 		}, false, nil
 	case xml.CharData:
+		// Adjacent character data (e.g. text next to a CDATA section) forms a single text node.
+		value := (string)(n)
+
+		for {
+			next, err := x.xmlReader.Token()
+
+			if cd, ok := next.(xml.CharData); ok && err == nil {
+				value += (string)(cd)
+				continue
+			}
+
+			x.hasPending = true
+			x.pendingTok = next
+			x.pendingErr = err
+			break
+		}
+
 		return XmlCharData{
-			value: (string)(n),
+			value: value,
 		}, false, nil
 	case xml.Comment:
 		return XmlComment{
